@@ -144,13 +144,13 @@ def run_lines(ctx, lines, expected, label, what_of):
     for l, g, m, e in zip(lines, got, mod, expected):
         if e is not None and g != e:
             nbad += 1
-            if nbad <= 40:
+            if len(ctx.violations) < 40:
                 ctx.report("%s: library gives %s, exact arithmetic gives %s" % (what_of(l), g, e), "num:" + l,
                            {"case": l, "implementation": g, "exact": e, "model": m, "found_in": label}, case=l)
         elif g != m and not l.startswith(("A ", "D ")):
             # model/implementation disagreement without an oracle verdict: the tie is broken
             nbad += 1
-            if nbad <= 40:
+            if len(ctx.violations) < 40:
                 ctx.report("%s: library gives %s, Coq model gives %s (oracle: %s)" % (what_of(l), g, m, e), "num:" + l,
                            {"case": l, "implementation": g, "model": m, "exact": e, "found_in": label}, case=l, no_input=(e is None))
     if lines:
@@ -260,7 +260,7 @@ def run(ctx):
     for (l, e), g in zip(api, got):
         if g != e:
             nb += 1
-            if nb <= 20:
+            if len(ctx.violations) < 40:
                 ctx.report("%s: library gives %s, exact arithmetic gives %s" % (whatA(l), g, e), "num:" + l,
                            {"case": l, "implementation": g, "exact": e, "found_in": "api"}, case=l)
     if api:
